@@ -942,3 +942,34 @@ Proof. vm_compute. reflexivity. Qed.
 Example ex_double_slash :
   create_request (s2b "/") (s2b "/{id}/items") [(s2b "id", [])] [] [] [] (s2b "h") = OutExotic.
 Proof. vm_compute. reflexivity. Qed.
+
+(* ---------- client.New leaves the base path text alone ---------- *)
+Theorem new_base_path_text : forall b,
+  (has_prefix [47] b = true /\ new_base_path b = b) \/
+  (has_prefix [47] b = false /\ new_base_path b = 47 :: b).
+Proof.
+  intro b. unfold new_base_path. destruct (has_prefix [47] b) eqn:E.
+  - left. split; reflexivity.
+  - right. split; reflexivity.
+Qed.
+
+Theorem new_base_path_rooted : forall b, has_prefix [47] (new_base_path b) = true.
+Proof.
+  intro b. unfold new_base_path. destruct (has_prefix [47] b) eqn:E.
+  - exact E.
+  - reflexivity.
+Qed.
+
+Theorem new_base_path_idem : forall b, new_base_path (new_base_path b) = new_base_path b.
+Proof.
+  intro b. unfold new_base_path at 1. rewrite new_base_path_rooted. reflexivity.
+Qed.
+
+(* the query string of the base path (the text behind the first question mark) reaches buildHTTP as written *)
+Theorem new_base_path_keeps_query : forall b, snd (cut 63 (new_base_path b)) = snd (cut 63 b).
+Proof.
+  intro b. unfold new_base_path. destruct (has_prefix [47] b) eqn:E.
+  - reflexivity.
+  - cbn [cut]. replace (47 =? 63) with false by reflexivity.
+    destruct (cut 63 b) as [a q]. reflexivity.
+Qed.
